@@ -17,7 +17,7 @@
                            equal the lists the model implements (closed by reflexivity in Proofs.code_shape_holds) *)
 From Coq Require Import List ZArith Bool.
 Import ListNotations.
-From V Require Import Base.U32 Base.Bytes Gen.C12Consts C12.Model C12.Proofs C12.Chain.
+From V Require Import Base.U32 Base.Bytes Base.Iface Gen.C12Consts C12.Model C12.Proofs C12.Chain C12.Boot.
 Local Open Scope Z_scope.
 
 (* ev_ok: Time dt has dt >= 0; a server message is not a gate-passing SET_CHANNEL_CONFIG / GET_CHANNEL_CONFIG_RESULT for a
@@ -233,3 +233,33 @@ Example C12_nonvacuous :
     = [EnterCfg 5500000; Factory; CfgFlash 1 1 15; Restart (5500000 + 100000 + 5000000 + 500000)].
 Proof. exact nonvacuous_thm. Qed.
 Print Assumptions C12_nonvacuous.
+
+(* ---- boot decision of the MQTT-capable build (user_init, #ifdef MQTT_SUPPORT_ENABLED); C12/Boot.v ----
+   bootcfg = the stored configuration as the decision sees it (flag bits, "string is set"); complete c = Wi-Fi name, Wi-Fi password and
+   server/broker address set and (SUPLA protocol: e-mail set | MQTT: NO_AUTH or user name and password set).
+   MBOOT ints: en noauth locked ssid wpwd server ident pass (ident = the one field Email/Username).
+   mboot_wire = outputs of the model for the event MBOOT (compared with the real user_main.c built with the MQTT flags):
+   [mk 0 [0] []] = configuration mode started, [mk 9 [k] []] = normal start of the SUPLA (1) / MQTT (2) client. *)
+Theorem C12_boot_guards_are_the_source_guards :
+  tt (fun a => mboot_incomplete (cfg_of_assignment a)) 256 = BOOT_TT_MQTT /\
+  tt (fun a => mboot_locked (lock_of_assignment a)) 4 = BOOT_TT_LOCKED /\
+  tt (fun a => pboot_enters (negb (bit a 0)) (negb (bit a 1)) (negb (bit a 2)) (negb (bit a 3)) (negb (bit a 4)) (negb (bit a 5))) 64 = BOOT_TT_PLAIN.
+Proof. exact boot_tables. Qed.
+Print Assumptions C12_boot_guards_are_the_source_guards.
+Theorem C12_mqtt_boot_cfgmode_iff_incomplete_or_locked : forall a,
+  let c := bootcfg_of_ints a in
+  (mboot_wire a = [mk 0 [0] []] <-> (complete c = false \/ (bc_en c = true /\ bc_locked c = true))) /\
+  (mboot_wire a <> [mk 0 [0] []] -> mboot_wire a = [mk 9 [if bc_en c then 2 else 1] []]).
+Proof. exact mqtt_boot_wire_thm. Qed.
+Print Assumptions C12_mqtt_boot_cfgmode_iff_incomplete_or_locked.
+Example C12_mqtt_boot_nonvacuous :
+  mboot_wire [1; 1; 0; 1; 1; 1; 0; 0] = [mk 9 [2] []] /\
+  mboot_wire [1; 1; 0; 1; 1; 1; 1; 0] = [mk 9 [2] []] /\
+  mboot_wire [1; 0; 0; 1; 1; 1; 0; 0] = [mk 0 [0] []] /\
+  mboot_wire [1; 0; 0; 1; 1; 1; 1; 0] = [mk 0 [0] []] /\
+  mboot_wire [1; 0; 0; 1; 1; 1; 1; 1] = [mk 9 [2] []] /\
+  mboot_wire [0; 0; 0; 1; 1; 1; 1; 0] = [mk 9 [1] []] /\
+  mboot_wire [0; 0; 0; 1; 1; 1; 0; 1] = [mk 0 [0] []] /\
+  mboot_wire [1; 0; 1; 1; 1; 1; 1; 1] = [mk 0 [0] []].
+Proof. exact mqtt_boot_examples. Qed.
+Print Assumptions C12_mqtt_boot_nonvacuous.
